@@ -54,8 +54,9 @@ pub trait Interface: ErrorHandler {
     /// Parses and executes the commands in the input buffer.
     ///
     /// The result is written to the response buffer. Any remaining input that
-    /// was not parsed is returned. If an error occurs, the remaining input
-    /// is returned and the error is passed to the error handler.
+    /// was not parsed is returned. If an error occurs, the error is passed to
+    /// the error handler and the faulty message is discarded up to and
+    /// including its terminator.
     async fn run<'a>(&mut self, mut input: &'a [u8], response: &mut impl crate::Write) -> &'a [u8] {
         let mut header = self.root_node();
 
@@ -74,7 +75,17 @@ pub trait Interface: ErrorHandler {
                 #[cfg(feature = "defmt")]
                 defmt::trace!("Parse error");
                 self.handle_error(error.into());
-                return input;
+                // Discard the faulty message up to and including its terminator, so that it is
+                // neither parsed (and reported) again nor affects the messages that follow.
+                match input.iter().position(|&byte| byte == b'\n') {
+                    Some(pos) => {
+                        input = &input[pos + 1..];
+                        header = self.root_node();
+                        continue;
+                    }
+                    // The faulty message is not terminated yet.
+                    None => return input,
+                }
             }
 
             let (i, call) = result.unwrap();
